@@ -18,6 +18,11 @@ pub enum LoopForm {
     CountVar(u8),
     While(u8),
     Until(u8),
+    /// until="ge($loopvar, T)" over the loop-var itself (start 0, given step): the condition is tested after each pass
+    /// with the value that pass saw
+    UntilVar(u8, f32),
+    /// while="$k" over a signed counter running from -N up to 0: any non-zero value is true
+    WhileSigned(u8),
 }
 
 #[derive(Clone, Debug, Serialize, Deserialize)]
@@ -50,11 +55,13 @@ fn node(depth: u32) -> BoxedStrategy<N> {
             1 => (0u8..5).prop_map(LoopForm::CountVar),
             2 => (0u8..5).prop_map(LoopForm::While),
             2 => (0u8..5).prop_map(LoopForm::Until),
+            1 => (0u8..5, prop_oneof![Just(1.0f32), Just(0.5), Just(2.0)]).prop_map(|(n, st)| LoopForm::UntilVar(n, st)),
+            1 => (0u8..5).prop_map(LoopForm::WhileSigned),
         ];
         prop_oneof![
             4 => (form, vec(inner.clone(), 1..4)).prop_map(|(f, b)| N::Loop(0, f, b)),
             2 => (vec(prop_oneof![Just("1"), Just("2"), Just("5"), Just("-3"), Just("0.5"), Just("10")], 1..5), any::<bool>(), vec(inner.clone(), 1..4)).prop_map(|(items, idx, b)| N::For(0, items.into_iter().map(|s| s.to_string()).collect(), idx, b)),
-            2 => (any::<bool>(), 0u8..3, vec(inner.clone(), 1..4)).prop_map(|(t, f, b)| N::If(t, f, b)),
+            2 => (any::<bool>(), 0u8..5, vec(inner.clone(), 1..4)).prop_map(|(t, f, b)| N::If(t, f, b)),
             1 => vec(inner.clone(), 1..4).prop_map(N::Group),
         ]
     })
@@ -124,13 +131,17 @@ fn render(prog: &[N], unroll: bool, vars: &mut Vec<String>, out: &mut Vec<X>) {
                 out.push(X::El(g));
             }
             N::If(truth, form, b) => {
-                let test = match (truth, form % 3) {
+                let test = match (truth, form % 5) {
                     (true, 0) => "1".to_string(),
                     (false, 0) => "0".to_string(),
                     (true, 1) => "gt(3, 2)".to_string(),
                     (false, 1) => "lt(3, 2)".to_string(),
-                    (true, _) => "{{2 - 1.5}}".to_string(),
-                    (false, _) => "{{2 * 0}}".to_string(),
+                    (true, 2) => "{{2 - 1.5}}".to_string(),
+                    (false, 2) => "{{2 * 0}}".to_string(),
+                    // any non-zero value is true, negative ones included
+                    (true, 3) => "{{1 - 3.5}}".to_string(),
+                    (true, _) => "-1".to_string(),
+                    (false, _) => "{{-2 + 2}}".to_string(),
                 };
                 if unroll {
                     if *truth {
@@ -198,7 +209,47 @@ fn render(prog: &[N], unroll: bool, vars: &mut Vec<String>, out: &mut Vec<X>) {
                         }
                         if lv.is_some() {
                             vars.pop();
+                            // the loop variable keeps the value of the last pass ("as though a <var> element was present")
+                            out.push(X::El(XEl::new("text").a("xy", "0 -9").a("text", format!("after {name}=${name}"))));
                         }
+                    }
+                    LoopForm::UntilVar(cnt, step) => {
+                        let name = format!("i{id}");
+                        vars.push(name.clone());
+                        // passes see 0, step, 2*step, ...; the loop ends after the first pass whose value is >= cnt*step
+                        let passes = *cnt as usize + 1;
+                        if unroll {
+                            for p in 0..passes {
+                                out.push(X::El(XEl::new("var").a(&name, f32txt(p as f32 * step))));
+                                render(b, unroll, vars, out);
+                            }
+                        } else {
+                            let mut e = XEl::new("loop").a("until", format!("ge(${name}, {})", f32txt(*cnt as f32 * step))).a("loop-var", name.clone());
+                            if *step != 1.0 {
+                                e.set("step", f32txt(*step));
+                            }
+                            render(b, unroll, vars, &mut e.kids);
+                            out.push(X::El(e));
+                        }
+                        vars.pop();
+                        out.push(X::El(XEl::new("text").a("xy", "0 -9").a("text", format!("after {name}=${name}"))));
+                    }
+                    LoopForm::WhileSigned(cnt) => {
+                        out.push(X::El(XEl::new("var").a(&k, format!("-{cnt}"))));
+                        vars.push(k.clone());
+                        let inc = XEl::new("var").a(&k, format!("{{{{${k} + 1}}}}"));
+                        if unroll {
+                            for _ in 0..*cnt {
+                                render(b, unroll, vars, out);
+                                out.push(X::El(inc.clone()));
+                            }
+                        } else {
+                            let mut e = XEl::new("loop").a("while", format!("${k}"));
+                            render(b, unroll, vars, &mut e.kids);
+                            e.kids.push(X::El(inc));
+                            out.push(X::El(e));
+                        }
+                        vars.pop();
                     }
                     LoopForm::CountVar(cnt) => {
                         // the body decrements the variable the count came from: the count is evaluated once, before the loop
@@ -298,13 +349,14 @@ fn stats(prog: &[N]) -> (usize, bool) {
                         }
                         *c
                     }
-                    LoopForm::CountVar(c) | LoopForm::While(c) => *c,
+                    LoopForm::CountVar(c) | LoopForm::While(c) | LoopForm::WhileSigned(c) => *c,
                     LoopForm::Until(c) => (*c).max(1),
+                    LoopForm::UntilVar(c, _) => *c + 1,
                 } as usize;
                 it = it.max(c);
                 let (i2, d2) = stats(b);
                 it = it.max(i2);
-                dep |= d2 || matches!(f, LoopForm::While(_) | LoopForm::Until(_));
+                dep |= d2 || matches!(f, LoopForm::While(_) | LoopForm::Until(_) | LoopForm::UntilVar(..) | LoopForm::WhileSigned(_));
             }
             N::For(_, items, _, b) => {
                 it = it.max(items.len());
